@@ -5,7 +5,7 @@
     harness fills by calling the REAL marshaler directly (Name on every value and on every
     handler's zero value, Marshal on every value sent, Unmarshal of every payload into every
     handler type of the scenario) — independently of the bus / processor run that is compared. *)
-From WM Require Import Base.Prelude Message.Model Handler.RouterHandle CQRS.Model CQRS.Reg.
+From WM Require Import Base.Prelude Message.Model Handler.RouterHandle CQRS.Model CQRS.Reg CQRS.Calls.
 
 Definition val := (N * N)%type.        (* Go type, canonical content *)
 Definition val_eqb (a b : val) : bool := N.eqb (fst a) (fst b) && N.eqb (snd a) (snd b).
@@ -180,3 +180,46 @@ Definition regs_violates (c : regs_case) : bool :=
   negb (reg_monitor (t_name t) (t_zero t) (g_evt c) (g_depr c) (g_calls c) (g_obs c) (g_router c) (g_hids c)).
 Definition regs_mismatches (cs : list regs_case) : list nat := positions (map regs_mismatch cs).
 Definition regs_violations (cs : list regs_case) : list nat := positions (map regs_violates cs).
+
+(** ** marshaler call discipline (round "proofs"): observed call sequences, aligned with [cases]
+    / [buscases]; None = the scenario used the bare marshaler *)
+Definition mevent_eqb (a b : mevent val) : bool :=
+  match a, b with
+  | MMarshal v1, MMarshal v2 | MName v1, MName v2 => val_eqb v1 v2
+  | MNameFrom, MNameFrom => true
+  | MUnmarshal t1 o1 f1 k1, MUnmarshal t2 o2 f2 k2 => N.eqb t1 t2 && N.eqb o1 o2 && Bool.eqb f1 f2 && Bool.eqb k1 k2
+  | MHandle h1 o1, MHandle h2 o2 => N.eqb h1 h2 && N.eqb o1 o2
+  | _, _ => false
+  end.
+Definition mc_mismatch (c : c15_case) (mt : option (list (mevent val))) : bool :=
+  match mt with
+  | None => false
+  | Some tr =>
+      let t := k_tab c in
+      negb (list_eqb mevent_eqb (proc_mcalls (t_name t) (t_dec t) (t_zero t) (k_cfg c) (k_msg c) (k_del c)) tr)
+  end.
+Definition mc_violates (c : c15_case) (mt : option (list (mevent val))) : bool :=
+  match mt with
+  | None => false
+  | Some tr =>
+      let t := k_tab c in
+      negb (mcalls_ok (name_from (k_msg c)) tr
+            && list_eqb N.eqb (mhandles tr) (map fst (calls (k_tr c))))
+  end.
+Fixpoint zip_with {A B} (f : A -> B -> bool) (a : list A) (b : list B) : list bool :=
+  match a, b with x :: a', y :: b' => f x y :: zip_with f a' b' | _, _ => [] end.
+Definition mc_mismatches cs mts : list nat := positions (zip_with mc_mismatch cs mts).
+Definition mc_violations cs mts : list nat := positions (zip_with mc_violates cs mts).
+
+Definition bmc_mismatch (c : bus_case) (mt : option (list (mevent val))) : bool :=
+  match mt with
+  | None => false
+  | Some tr => negb (list_eqb mevent_eqb (bus_mcalls (t_enc (b_tab c)) (b_val c)) tr)
+  end.
+Definition bmc_violates (c : bus_case) (mt : option (list (mevent val))) : bool :=
+  match mt with
+  | None => false
+  | Some tr => negb (bus_mcalls_ok (t_enc (b_tab c)) val_eqb (b_val c) tr)
+  end.
+Definition bmc_mismatches cs mts : list nat := positions (zip_with bmc_mismatch cs mts).
+Definition bmc_violations cs mts : list nat := positions (zip_with bmc_violates cs mts).
